@@ -60,7 +60,10 @@ def step (_ : Unit) (line : String) : Unit × String :=
         let r := if kind == "nested" then nestedParams [s1, s2] else [pathParam s1, pathParam s2]
         let v := if r == [utf8Lossy (pctDecode s1), utf8Lossy (pctDecode s2)] then "ok" else "fail not-once"
         match r with
-        | [a, b] => s!"ok {hexOfBytes a} {hexOfBytes b} ## {v}"
+        | [a, b] =>
+          -- nested: the parent route's layout reads the merged map of the matched routes as well
+          let lay := if kind == "nested" then s!" layout={hexOfBytes a},{hexOfBytes b}" else ""
+          s!"ok {hexOfBytes a} {hexOfBytes b}{lay} ## {v}"
         | _ => "bad-op"
       | _, _ => "bad-op"
     | ["hookquery", h] =>
